@@ -123,3 +123,31 @@ M('c02_auto_radius_plus', 'C02', (T, "        site_radius = (0.5 * min_dist) - 0
 M('c02_auto_radius_vib_once', 'C02', (T, "    site_radius = 2 * vibration_amplitude\n", "    site_radius = 2.1 * vibration_amplitude\n"))
 M('c02_no_periodic_images_z', 'C02', (T, "    traj_frac_coords = trajectory.positions.reshape(-1, 3)\n", "    traj_frac_coords = trajectory.positions.reshape(-1, 3)\n    traj_frac_coords = np.where(traj_frac_coords > 0.999, traj_frac_coords - 0.002, traj_frac_coords)\n"))
 M('c02_min_dist_nonperiodic', 'C02', (T, "    pdist = lattice.get_all_distances(site_coords, site_coords)\n    min_dist", "    from scipy.spatial.distance import cdist\n    pdist = cdist(sites.cart_coords, sites.cart_coords)\n    min_dist"))
+# ---- C05 -------------------------------------------------------------------------------------
+M('c05_matrix_ones', 'C05', (T, "    transitions[start_idx, stop_idx] = counts\n", "    transitions[start_idx, stop_idx] = np.minimum(counts, 2)\n"))
+M('c05_diffusivity_no_square', 'C05', (J, "        jump_diff = np.sum(pdist**2 * self.matrix())\n", "        jump_diff = np.sum(pdist * self.matrix())\n"))
+M('c05_diffusivity_no_nfloating', 'C05', (J, "(2 * dimensions * self.n_floating * total_time)", "(2 * dimensions * total_time)"))
+M('c05_diffusivity_dim_fixed', 'C05', (J, "(2 * dimensions * self.n_floating * total_time)", "(2 * 3 * self.n_floating * total_time)"))
+M('c05_counter_swapped', 'C05', (J, "            counter[labels[i], labels[j]] += val\n", "            counter[labels[j], labels[i]] += val\n"))
+M('c05_occupancy_states_size', 'C05', (T, "        counts = counts / len(states)\n", "        counts = counts / states.size\n"))
+M('c05_pdist_nonperiodic', 'C05,C07', (J, "        pdist = lattice.get_all_distances(sites.frac_coords, sites.frac_coords)\n", "        from scipy.spatial.distance import cdist\n        pdist = cdist(sites.cart_coords, sites.cart_coords)\n"))
+M('c05_atom_locations_mean', 'C05', (T, "        return {k: sum(v) / n for k, v in compositions_by_label.items()}\n", "        return {k: sum(v) / max(n, len(v)) for k, v in compositions_by_label.items()}\n"))
+M('c05_graph_skips_rare', 'C05', (J, "            if min_e_act <= e_act <= max_e_act:\n", "            if min_e_act <= e_act <= max_e_act and (n_jumps > 1 or start < 5):\n"))
+M('c05_rates_ddof0', 'C05', (J, "            jump_freq_std = np.std(n_jumps, ddof=1) / denom\n", "            jump_freq_std = np.std(n_jumps) / denom\n"))
+M('c05_matrix_k2_everywhere', 'C05', (T, "    start_idx, stop_idx = idx.T\n", "    start_idx, stop_idx = idx.T\n    start_idx = np.where(start_idx == 0, -1, start_idx)\n"))
+# ---- C12 -------------------------------------------------------------------------------------
+CO = 'collective.py'
+M('c12_revert_F8', 'C12', (CO, """                if event_j['stop time'] - max_transit - event_i['stop time'] > max_steps:
+                    break
+                if event_j['start time'] - event_i['stop time'] > max_steps:
+                    continue
+""", """                if event_j['start time'] - event_i['stop time'] > max_steps:
+                    break
+"""))
+M('c12_no_same_atom_exclusion', 'C12', (CO, "                if event_i['atom index'] == event_j['atom index']:\n                    continue\n", ""))
+M('c12_all_dists', 'C12', (CO, "                if np.any(dists < max_dist):", "                if np.all(dists < max_dist):"))
+M('c12_window_stop_stop', 'C12', (CO, "                if event_j['start time'] - event_i['stop time'] > max_steps:\n                    continue\n", "                if event_j['stop time'] - event_i['stop time'] > max_steps:\n                    continue\n"))
+M('c12_floor_window', 'C12', (J, "        max_steps = ceil(1.0 / (attempt_freq * time_step))\n", "        max_steps = int(1.0 / (attempt_freq * time_step))\n"))
+M('c12_max_transit_median', 'C12', (CO, "        max_transit = (events['stop time'] - events['start time']).max()\n", "        max_transit = int((events['stop time'] - events['start time']).median())\n"))
+M('c12_window_ge', 'C12', (CO, "                if event_j['start time'] - event_i['stop time'] > max_steps:\n                    continue\n", "                if event_j['start time'] - event_i['stop time'] >= max_steps:\n                    continue\n"))
+M('c12_dest_only', 'C12', (CO, "                a = sites.frac_coords[[event_i['start site'], event_i['destination site']]]\n", "                a = sites.frac_coords[[event_i['destination site'], event_i['destination site']]]\n"))
